@@ -103,6 +103,13 @@ def run_impl(case):
     from txtorcon import TorConfig
     from txtorcon.torcontrolprotocol import TorProtocolError
     from cfgworld import World
+    from twisted.python import log as tlog
+    if getattr(tlog, 'defaultObserver', None) is not None:
+        # Event.got_update logs what a listener raises (an unreadable CONF_CHANGED value): keep stderr quiet
+        from twisted.logger import globalLogBeginner
+        tlog.defaultObserver.stop()
+        tlog.defaultObserver = None
+        globalLogBeginner.beginLoggingTo([lambda event: None], redirectStandardIO=False, discardBuffer=True)
 
     table = [tuple(r) for r in case['table']]
     defaults = None if case['defaults'] is None else [tuple(d) for d in case['defaults']]
@@ -745,6 +752,31 @@ def finding_flags(case):
     return s.flags()
 
 
+def unparsable_item(opts, key, val):
+    """Spec.C11.unparsable_item: an announced value the declared (numeric / boolean) type cannot read"""
+    if val is None or val == '':
+        return False
+    for cn, k in opts:
+        if cn.lower() == key.lower():
+            if k in ('KBool', 'KInt'):
+                return parse_int(val) is None
+            if k == 'KBoolAuto':
+                return val != 'auto' and parse_int(val) is None
+            if k == 'KFloat':
+                return float_canon(val) is None
+            return False
+    return False
+
+
+def settle_op(opts, op):
+    """Spec.C11.settle_op"""
+    if op[0] == 'event':
+        return ['event', [it for it in op[1] if not unparsable_item(opts, it[0], it[1])]]
+    return op
+
+
 def c11_flags(case):
-    """Spec/C11.v: the open classes of C11 are those of C10 (the third clause of edit_while_detached needs an event)"""
-    return finding_flags(case)
+    """Spec/C11.v: the open classes of C11 are those of C10 (the third clause of edit_while_detached needs an event);
+    computed, as every C11 verdict, on the settled history (Spec.C11.settle)"""
+    opts = options([tuple(r) for r in case['table']])
+    return finding_flags(dict(case, ops=[settle_op(opts, o) for o in case['ops']]))
